@@ -7,7 +7,9 @@ import (
 
 	"verifmc/fw"
 
+	calctok "github.com/pip-services3-gox/pip-services3-expressions-gox/calculator/tokenizers"
 	"github.com/pip-services3-gox/pip-services3-expressions-gox/tokenizers"
+	"github.com/pip-services3-gox/pip-services3-expressions-gox/tokenizers/generic"
 )
 
 // C13 — lexeme sequences tokenize back to themselves with the right classes.
@@ -39,6 +41,29 @@ func c13Pool(kind string) []lexeme {
 		p = append(p, lx(tokenizers.Symbol, "<>", "<=", ">=", "<", ">", "=", "+", "*", "(", ")", ",", "/", "!", ";", "-", ".", "{", "%", "&", "^")...)
 		return p
 	}
+	if kind == "generic+symrange" {
+		// arrows and mathematical operators configured back as symbols on top of the default word range
+		p = append(p, lx(tokenizers.Word, "abc", "я", "привет", "aя", "日本")...)
+		p = append(p, lx(tokenizers.Integer, "12", "-3")...)
+		p = append(p, lx(tokenizers.Float, "1.5")...)
+		p = append(p, lx(tokenizers.Quoted, "'я→'")...)
+		p = append(p, lx(tokenizers.Comment, "#→я")...)
+		p = append(p, lx(tokenizers.Whitespace, " ", "\n")...)
+		p = append(p, lx(tokenizers.Symbol, "→", "≠", "∀", "<=", "<", "+", "(")...)
+		return p
+	}
+	if kind == "expression+cyrillic" {
+		// Cyrillic letters configured as identifier start letters on top of the default symbol range
+		p = append(p, lx(tokenizers.Word, "abc", "я", "яб", "бв9", "aя", "Ѐ", "ӿ")...)
+		p = append(p, lx(tokenizers.Keyword, "AND", "null")...)
+		p = append(p, lx(tokenizers.Integer, "12")...)
+		p = append(p, lx(tokenizers.Float, "1.5")...)
+		p = append(p, lx(tokenizers.Quoted, "'я≠'")...)
+		p = append(p, lx(tokenizers.Comment, "/* я≠ */")...)
+		p = append(p, lx(tokenizers.Whitespace, " ", "\n")...)
+		p = append(p, lx(tokenizers.Symbol, "≠", "→", "日", "Ͽ", "Ԁ", "<=", "<", "+", "(")...)
+		return p
+	}
 	p = append(p, lx(tokenizers.Word, "abc", "a_b1", "_x", "Z9", "été", "aя", "\"a b\"", "\"\"", "\"q\"\"q\"", "\"é\nя\"")...)
 	p = append(p, lx(tokenizers.Keyword, "AND", "or", "Not", "XOR", "like", "IS", "iN", "NULL", "null", "True", "FALSE")...)
 	p = append(p, lx(tokenizers.Integer, "0", "12", "007")...)
@@ -61,6 +86,7 @@ func isWordCharConservative(r rune) bool {
 
 // longest registered symbol that prefixes s (or its first character)
 func longestSymbol(kind string, s string) string {
+	kind = c13Base(kind)
 	best := string([]rune(s)[:1])
 	for _, m := range c13Multi[kind] {
 		if strings.HasPrefix(s, m) && len(m) > len(best) {
@@ -73,6 +99,12 @@ func longestSymbol(kind string, s string) string {
 // canAbut is deliberately conservative: it returns true only when a and b
 // written next to each other certainly stay two lexemes of the same classes.
 func canAbut(kind string, a, b lexeme) bool {
+	configured := kind != c13Base(kind)
+	kind = c13Base(kind)
+	if configured && a.typ == tokenizers.Symbol && []rune(a.text)[0] >= 0x100 {
+		// a non-Latin symbol ends after one character whatever follows
+		return true
+	}
 	bf := []rune(b.text)[0]
 	ar := []rune(a.text)
 	al := ar[len(ar)-1]
@@ -118,6 +150,24 @@ func canAbut(kind string, a, b lexeme) bool {
 
 var c13Tok = map[string]tokenizers.ITokenizer{}
 
+func c13Base(kind string) string { return strings.SplitN(kind, "+", 2)[0] }
+
+// c13New builds a fresh tokenizer of the kind; the "+..." kinds configure a narrower
+// non-Latin range on top of the default one through the public SetCharacterState
+func c13New(kind string) tokenizers.ITokenizer {
+	t := newTokenizer(c13Base(kind))
+	switch kind {
+	case "generic+symrange":
+		g := t.(*generic.GenericTokenizer)
+		g.SetCharacterState(0x2190, 0x22ff, g.SymbolState())
+	case "expression+cyrillic":
+		e := t.(*calctok.ExpressionTokenizer)
+		e.SetCharacterState(0x0400, 0x04ff, e.WordState())
+	}
+	setOptions(t, 0)
+	return t
+}
+
 func c13Run(c *fw.Ctx, kind string, pool []lexeme, seq []int, mode int) {
 	lex := make([]lexeme, len(seq))
 	for i, s := range seq {
@@ -133,7 +183,7 @@ func c13Run(c *fw.Ctx, kind string, pool []lexeme, seq []int, mode int) {
 			}
 			if i > 0 {
 				sep := " "
-				if kind == "generic" && lex[i-1].typ == tokenizers.Comment {
+				if c13Base(kind) == "generic" && lex[i-1].typ == tokenizers.Comment {
 					sep = "\n"
 				}
 				text.WriteString(sep)
@@ -155,8 +205,7 @@ func c13Run(c *fw.Ctx, kind string, pool []lexeme, seq []int, mode int) {
 	in := text.String()
 	t := c13Tok[kind]
 	if t == nil {
-		t = newTokenizer(kind)
-		setOptions(t, 0)
+		t = c13New(kind)
 		c13Tok[kind] = t
 	}
 	res := tokenizeOn(t, in)
@@ -174,7 +223,7 @@ func c13Run(c *fw.Ctx, kind string, pool []lexeme, seq []int, mode int) {
 	}
 	if !ok(res) {
 		delete(c13Tok, kind)
-		res = tokenize(kind, 0, in) // fresh instance decides
+		res = tokenizeOn(c13New(kind), in) // fresh instance decides
 		if ok(res) {
 			c.Violation("lexemes-only-on-reused-instance:"+kind, "%s tokenizer: %q differs on a reused instance", kind, in)
 			return
@@ -222,7 +271,7 @@ func init() {
 		ID:    "C13",
 		Level: "model_checking",
 		Rule: "generic and expression tokenizer: every sequence up to the length bound over a pool of class-tagged lexemes (identifiers incl. Latin-1/non-Latin, every keyword in several letter cases, integers, decimals, scientific/signed numbers, quoted strings with doubled quotes/LF/non-ASCII, comments, whitespace runs, every single- and multi-character symbol), " +
-			"(mode 0) separated by one blank and (mode 1) abutting wherever a conservative boundary table says neighbours cannot merge; oracle: TokenizeStream returns exactly those lexemes with exactly those classes; non-trivial = sequences of >=2 lexemes that were not skipped",
+			"the same over smaller pools for a generic tokenizer with U+2190..22FF configured as symbols and an expression tokenizer with U+0400..04FF configured as identifier letters (SetCharacterState on top of the default non-Latin range); (mode 0) separated by one blank and (mode 1) abutting wherever a conservative boundary table says neighbours cannot merge; oracle: TokenizeStream returns exactly those lexemes with exactly those classes; non-trivial = sequences of >=2 lexemes that were not skipped",
 		Assume: []string{"the conservative abutting table only ever skips sequences; it never predicts a segmentation"},
 		Spaces: func(tier string) []fw.Space {
 			maxLen := 3
@@ -230,7 +279,7 @@ func init() {
 				maxLen = 4
 			}
 			sp := []fw.Space{}
-			for _, kind := range []string{"generic", "expression"} {
+			for _, kind := range []string{"generic", "expression", "generic+symrange", "expression+cyrillic"} {
 				kind := kind
 				pool := c13Pool(kind)
 				for mode := 0; mode < 2; mode++ {
@@ -250,9 +299,9 @@ func init() {
 		},
 		Bounds: func(tier string) string {
 			if tier == "thorough" {
-				return "all lexeme sequences of length<=4 over pools of 53 (generic) / 67 (expression) lexemes, two joining modes"
+				return "all lexeme sequences of length<=4 over pools of 53 (generic) / 67 (expression) lexemes and of 19 / 26 lexemes for the two tokenizers with a configured narrower non-Latin range, two joining modes"
 			}
-			return "all lexeme sequences of length<=3, two joining modes"
+			return "all lexeme sequences of length<=3 (default and configured-range tokenizers), two joining modes"
 		},
 	})
 }
